@@ -12,7 +12,8 @@ R6 the derived helpers pass (relationship, class) pairs of the containment schem
 import ast
 
 from ..core import AnalysisError, norm, loc, walk_no_nested, attr_chain, call_name
-from ..normalize import builders, canon, conjuncts, ctext, local_env, expand
+from ..normalize import builders, canon, conjuncts, ctext, local_env, expand, branch_values, Unknown
+from ..core import func_params
 from .. import nxgraph as nxg
 from .. import flow
 from ..schema import containment_schema
@@ -291,14 +292,19 @@ def run(prog, rep):
             rep.violation('R5', loc(mixin.module, fn), f'NetworkXMixin.{fn.name}', f'no `Class of {view}[element] != {param}` drop test',
                           f'elements whose Class differs from `{param}` must be dropped')
     fn2 = nxg.method(prog, nxpg, nxpg.methods['get_first_and_second_neighbor'])
+    p2 = [p_ for p_ in func_params(fn2) if p_ != 'self']
+    start_vars = {n.targets[0].id for n in walk_no_nested(fn2) if isinstance(n, ast.Assign) and isinstance(n.targets[0], ast.Name) and
+                  isinstance(n.value, ast.Call) and call_name(n.value) == '_find_node' and
+                  any(isinstance(x, ast.Name) and x.id == p2[0] for a_ in list(n.value.args) + [k.value for k in n.value.keywords] for x in ast.walk(a_))}
     checks = [
         ('first-hop relationship filter', bool(neq_against(fn2, 'rel1'))),
         ('first-hop class filter', any(has_name_arg(c, 'node1_label') for c in calls_named(fn2, '_filter_nodes_by_label'))),
         ('second-hop relationship filter', bool(neq_against(fn2, 'rel2'))),
         ('second-hop class filter', any(has_name_arg(c, 'node2_label') for c in calls_named(fn2, '_filter_nodes_by_label'))),
-        ('exclusion of the start node', any(has_name_arg(c, 'real_node') for c in calls_named(fn2, 'remove') + calls_named(fn2, 'discard'))
-         or any(isinstance(n, ast.Compare) and isinstance(n.ops[0], ast.NotEq) and 'real_node' in ast.unparse(n) and not is_class_label(n)
-                for n in ast.walk(fn2))),
+        ('exclusion of the start node', any(any(has_name_arg(c, sv) for c in calls_named(fn2, 'remove') + calls_named(fn2, 'discard'))
+                                            or any(isinstance(n, ast.Compare) and isinstance(n.ops[0], ast.NotEq) and
+                                                   any(isinstance(x, ast.Name) and x.id == sv for x in ast.walk(n)) and not is_class_label(n)
+                                                   for n in ast.walk(fn2)) for sv in start_vars)),
     ]
     rep.instance('R5', f'get_first_and_second_neighbor: {[(w, ok) for w, ok in checks]}')
     for what, ok in checks:
@@ -339,14 +345,41 @@ def run(prog, rep):
         ok = ifn is not None and any(x is rm[0] for x in ast.walk(ifn))
     if not ok:
         rep.violation('R5', loc(mixin.module, dr), 'NetworkXMixin._drop_edges_not_of_type', 'drop test', 'edges whose Class differs from rel must be removed')
-    wh = nxpg.methods['get_nodes_on_path_with_hops']
-    allc = [c for c in calls_named(wh, 'all') if c.args and isinstance(c.args[0], (ast.GeneratorExp, ast.ListComp))
-            and ast.unparse(c.args[0].generators[0].iter) == 'hops' and isinstance(c.args[0].elt, ast.Compare)
-            and isinstance(c.args[0].elt.ops[0], ast.In)]
-    shorter = [n for n in ast.walk(wh) if isinstance(n, ast.Compare) and isinstance(n.ops[0], (ast.Gt, ast.Lt)) and
-               ast.unparse(n).count('len(') == 2 and 'result' in ast.unparse(n)]
-    rep.instance('R5', f'get_nodes_on_path_with_hops: hop containment {bool(allc)}; shortest kept {bool(shorter)}')
-    if not allc or not shorter:
+    wh = nxg.method(prog, nxpg, nxpg.methods['get_nodes_on_path_with_hops'])
+    wrets = [r.value.id for r in walk_no_nested(wh) if isinstance(r, ast.Return) and isinstance(r.value, ast.Name)]
+    hparam = [p_ for p_ in func_params(wh) if 'hop' in p_]
+    okh = False
+    detail = None
+    if wrets and hparam:
+        res = wrets[-1]
+        loops_ = [l for l in walk_no_nested(wh) if isinstance(l, ast.For) and any(isinstance(x, ast.Assign) and any(isinstance(t, ast.Name) and t.id == res for t in x.targets)
+                                                                              for x in ast.walk(l))]
+        if loops_:
+            def res_sink(st):
+                if isinstance(st, ast.Assign) and len(st.targets) == 1 and isinstance(st.targets[0], ast.Name) and st.targets[0].id == res:
+                    return st.value
+                return None
+            try:
+                outs = branch_values(loops_[0].body, res_sink, opaque=(res,))
+            except Unknown:
+                outs = []
+            for o in outs:
+                cand = o.vtext
+                contain = any(isinstance(n, ast.Call) and isinstance(n.func, ast.Name) and n.func.id == 'all' and n.args and
+                              isinstance(n.args[0], ast.GeneratorExp) and isinstance(n.args[0].elt, ast.Compare) and isinstance(n.args[0].elt.ops[0], ast.In) and
+                              ctext(n.args[0].elt.comparators[0]) == cand and ctext(n.args[0].generators[0].iter) == hparam[0]
+                              for n in o.cond_nodes)
+                shorter = False
+                for n in o.cond_nodes:
+                    alts = n.values if isinstance(n, ast.BoolOp) and isinstance(n.op, ast.Or) else [n]
+                    texts = {ctext(a_) for a_ in alts}
+                    if {f'not {res}', f'len({cand}) < len({res})'} <= texts:
+                        shorter = True
+                detail = (sorted(o.conds), cand)
+                if contain and shorter:
+                    okh = True
+    rep.instance('R5', f'get_nodes_on_path_with_hops: result replaced under {detail}; hop containment and shortest selection: {okh}')
+    if not okh:
         rep.violation('R5', loc(nxpg.module, wh), 'NetworkXPropertyGraph.get_nodes_on_path_with_hops', 'hop containment / shortest selection',
                       'a returned path must contain every requested hop and be the shortest such path found')
 
